@@ -111,6 +111,24 @@ def main():
         if os.path.exists(notes):
             out.append(open(notes).read() + '\n')
 
+    # ---- 6.3 refactorings ----
+    rdirs = sorted(glob.glob(os.path.join(VERIF, 'refactors', '*', 'meta.json')))
+    if rdirs:
+        out.append('### 6.3 Behaviour-preserving refactorings: the checks stay silent\n\nThe converse experiment. Fresh sub-agents (again given only one property text and a scratch worktree) were asked for three *refactorings* each: renamed or retyped private members, loops turned into algorithms and back, equivalent arithmetic and conditions (with the same behaviour at the integer limits), helper functions split or merged, different exception classes below `std::exception`, reworded messages, moved or removed copies. `refactors/import.py` keeps a refactoring if it applies and the 141 tests pass with it; `refactors/run.py` then runs, against the patched tree, the quick check of the property it was written for and of every other property whose anchors name a touched file. Every run must exit 0 without a VIOLATION line.\n\n')
+        out.append('| id | written for | files touched | checks run | result |\n|---|---|---|---|---|\n')
+        nr = ns = 0
+        for d in rdirs:
+            m = json.load(open(d))
+            rp = os.path.join(os.path.dirname(d), 'result.json')
+            r = json.load(open(rp)) if os.path.exists(rp) else {}
+            cs = sorted(r.get('checks', {}).keys())
+            alarms = [c for c in cs if r['checks'][c].get('exit') != 0]
+            nr += 1; ns += 1 if (cs and not alarms) else 0
+            out.append('| %s | %s | %s | %s | %s |\n' % (m['id'], m['written_for'], ', '.join(f.replace('src/', '') for f in m['files']), ', '.join(cs) if cs else 'not run', ('ALARM in ' + ', '.join(alarms)) if alarms else ('silent' if cs else '-')))
+        out.append('\nTotals: %d refactorings, %d with every selected check silent.\n\n' % (nr, ns))
+        rn = os.path.join(VERIF, 'mc', 'design_refactor_notes.md')
+        if os.path.exists(rn):
+            out.append(open(rn).read().rstrip() + '\n\n')
     # ---- section 7 ----
     kf = json.load(open(os.path.join(VERIF, 'known_findings.json')))['findings']
     out.append('\n## 7. Findings: genuine defects of OP2Utility found by the checks\n\nEvery entry below was produced by a check on the then-current tree as a replayable case, reproduced, and repaired by a minimal\nunguarded `fix:` commit in `/repo` (one defect per commit; the 141 tests pass after each). `known_findings.json` lists them with\n`status: fixed`; a fixed entry suppresses nothing, so each check reports the violation again if it ever returns (the\nhand-written mutants of 6.2 re-introduce several of them and are detected). There is no `status: known` entry: no defect was\nleft unrepaired.\n\n')
